@@ -55,4 +55,24 @@ Read(entityId, seen, valid, tm, files) ==
   /\ tm = times
   /\ files
   /\ UNCHANGED vars
+
+(* another replica appended `remote` to the same committed history at the same time; after both merged, every reader on
+   either replica, every time, sees the same sequence: all operations of both sides, each once, each side's order kept
+   (which order concurrent operations take is GitBug.tla's subject, not this module's); ids and digests unchanged *)
+Pos(s, x) == CHOOSE i \in DOMAIN s : s[i] = x
+Keeps(r, s) == \A i, j \in DOMAIN s : i < j => Pos(r, s[i]) < Pos(r, s[j])
+ReadMerged(entityId, remote, reads, valid, files) ==
+  /\ ncommitted = Len(ops) /\ ncommitted > 0
+  /\ entityId = eid
+  /\ remote # <<>> /\ Ids(remote) \cap Ids(ops) = {}
+  /\ reads # <<>>
+  /\ \A i \in DOMAIN reads : reads[i] = reads[1]
+  /\ LET r == reads[1] IN
+       /\ Len(r) = Len(ops) + Len(remote)
+       /\ {r[i] : i \in DOMAIN r} = {ops[i] : i \in DOMAIN ops} \cup {remote[i] : i \in DOMAIN remote}
+       /\ Keeps(r, ops) /\ Keeps(r, remote)
+       /\ r[1] = ops[1]
+       /\ ops' = r /\ ncommitted' = Len(r)
+  /\ valid /\ files
+  /\ UNCHANGED <<eid, npacks, times>>
 =============================================================================
